@@ -27,6 +27,7 @@ Step(e) ==
     [] e.a = "Answer"      -> Answer(e.s, RF(e))
     [] e.a = "StreamFailed" -> StreamFailed(e.s)
     [] e.a = "LateClosed"  -> LateClosed(e.s)
+    [] e.a = "Progress"    -> StreamProgress(e.s, e.k)
     [] e.a = "SetAttacher" -> SetAttacher(e.who, IF "late" \in DOMAIN e THEN e.late ELSE FALSE)
     [] e.a = "ViaConnect"  -> ViaConnect(e.k, e.c, e.late)
     [] e.a = "ConfAck"     -> ConfAck
